@@ -328,7 +328,7 @@ pub fn strategy() -> BoxedStrategy<c13::Case> {
         2 => (0usize..3).prop_map(|ty| Op::StopBrowse { ty }),
         3 => (0usize..3, 0u8..4, proptest::option::weighted(0.3, prop_oneof![Just(500u64), Just(5000), 1u64..400_000])).prop_map(|(host, case_var, timeout_ms)| Op::Resolve { host, case_var, timeout_ms }),
         1 => (0usize..3, 0u8..4).prop_map(|(host, case_var)| Op::StopResolve { host, case_var }),
-        3 => (0usize..3, 0usize..3, prop_oneof![Just(120u32), Just(4500), Just(10), 2u32..5000]).prop_map(|(ty, inst, ttl)| Op::Announce { ty, inst, ttl }),
+        3 => (0usize..3, 0usize..3, prop_oneof![Just(120u32), Just(4500), Just(10), 2u32..5000]).prop_map(|(ty, inst, ttl)| Op::Announce { ty, inst, ttl, part: 0 }),
         1 => (0usize..3, 0usize..3).prop_map(|(ty, inst)| Op::Goodbye { ty, inst }),
         2 => (0usize..3, 0u8..4, prop_oneof![Just(120u32), 2u32..5000]).prop_map(|(host, case_var, ttl)| Op::HostAddr { host, case_var, ttl }),
         6 => prop_oneof![Just(0u64), Just(1500), Just(10_000), Just(100_000), 0u64..5000, 0u64..3_000_000, 0u64..40_000_000].prop_map(|ms| Op::Advance { ms }),
